@@ -380,6 +380,19 @@ type hist struct {
 	// violation of that class instead of being treated as a harness failure
 	subErrClass string
 	resErrEvery int // the recording ClientConn of resolvers built from now on fails every n-th UpdateState
+	// resHook, if set, supplies the hook of the recording ClientConn of every resolver built
+	// from now on (multi_test.go: actions placed inside a publication)
+	resHook func(s *subRec) func(call int)
+	// sticky != "": every violation of this history is filed under this class (multi_test.go:
+	// once a subscriber was created WHILE events were in flight, damage may surface steps later)
+	sticky string
+}
+
+func (h *hist) cls() string {
+	if h.sticky != "" {
+		return h.sticky
+	}
+	return h.class
 }
 
 func (h *hist) endpoints() []string {
@@ -514,6 +527,9 @@ func (h *hist) addResolver(name string) *subRec {
 		panic(err)
 	}
 	s := &subRec{name: name, mode: "resolver", wk: h.pwk, res: &resRec{lisRec: *newLis(), errEvery: h.resErrEvery}}
+	if h.resHook != nil {
+		s.res.hook = h.resHook(s)
+	}
 	if h.dead {
 		s.closed = true
 		s.m = newMirror(false, h.pwk, 0)
@@ -740,6 +756,9 @@ func (h *hist) sync() {
 }
 
 func (h *hist) classOf(s *subRec, mm mismatch) string {
+	if h.sticky != "" {
+		return h.sticky
+	}
 	if mm.kind != "duplicate-value" {
 		if how, ok := s.m.taintVal[mm.val]; ok {
 			return how
@@ -850,7 +869,7 @@ func (h *hist) check(s *subRec) {
 		if calls == 0 {
 			// never notified: legal only if nothing changed since it was registered
 			if s.m.demanded > l.demBase {
-				h.flag(s, "C13/notification-missing/"+h.class, fmt.Sprintf("listener %d of %s was never called although the view changed %d time(s) since it was added",
+				h.flag(s, "C13/notification-missing/"+h.cls(), fmt.Sprintf("listener %d of %s was never called although the view changed %d time(s) since it was added",
 					i, s.name, s.m.demanded-l.demBase), store, got)
 			}
 			continue
@@ -864,11 +883,11 @@ func (h *hist) check(s *subRec) {
 		if len(lm) > 0 && !sameMM(lm, mms) {
 			// the subscriber's view is right (or wrong differently) but the last notification
 			// saw something else: no notification followed the last change
-			h.flag(s, "C13/listener-stale-view/"+h.class, fmt.Sprintf("listener %d of %s: the view seen by its last notification %v differs from the registrations; Values() now %v",
+			h.flag(s, "C13/listener-stale-view/"+h.cls(), fmt.Sprintf("listener %d of %s: the view seen by its last notification %v differs from the registrations; Values() now %v",
 				i, s.name, last, got), store, last)
 		}
 		if calls < s.m.demanded-l.demBase {
-			h.flag(s, "C13/notification-missing/"+h.class, fmt.Sprintf("listener %d of %s was called %d time(s) but the view changed %d time(s) since it was added",
+			h.flag(s, "C13/notification-missing/"+h.cls(), fmt.Sprintf("listener %d of %s was called %d time(s) but the view changed %d time(s) since it was added",
 				i, s.name, calls, s.m.demanded-l.demBase), store, got)
 		}
 	}
@@ -998,8 +1017,16 @@ var rlNames = []string{"BREAK(channel closed -> re-watch replays from the last l
 // reload: partition (missed ops are applied to the store only), then the chosen
 // kind of stream failure; waits for go-zero's follow-up calls, then synchronises.
 func (h *hist) reload(kind int, n int, next func() op) {
+	if h.reloadNoSync(kind, n, next) {
+		h.sync()
+	}
+}
+
+// reloadNoSync is reload without the final synchronisation (the caller does something
+// between go-zero's recovery and the comparison); false: the history has ended.
+func (h *hist) reloadNoSync(kind int, n int, next func() op) bool {
 	if h.dead {
-		return
+		return false
 	}
 	h.f.stallAll()
 	var ds []string
@@ -1043,16 +1070,16 @@ func (h *hist) reload(kind int, n int, next func() op) {
 		switch h.f.waitLive(wk, w+1) {
 		case wlStuck:
 			h.reloadMissing(wk, rlNames[kind])
-			return
+			return false
 		case wlTimeout:
 			h.inconclusive("watchdog: go-zero did not re-establish the watch after " + rlNames[kind])
-			return
+			return false
 		}
 		if g1, _ := h.f.calls(wk); kind >= rlCompactBreak && g1 > g {
 			h.c.Obs("compactions_followed_by_load", 1)
 		}
 	}
-	h.sync()
+	return true
 }
 
 // Reports per child process and kind of causally decided "go-zero never does X"
@@ -1912,6 +1939,14 @@ func TestVerifC13(t *testing.T) {
 	kit.Run(t, "C13", "publisher", kit.N(8, 96), publisherCase)
 	// error paths of registry / subscriber / resolver followed by ordinary histories (faults_test.go)
 	kit.Run(t, "C13", "registry-faults", kit.N(80, 2000), registryFaultCase)
+	// several subscribers / resolvers on ONE watch, closed (multi-close) or created (multi-join)
+	// WHILE events are being dispatched; several keys on ONE cluster across reloads;
+	// Values() polled while events are applied (multi_test.go)
+	kit.Run(t, "C13", "multi-close", kit.N(1200, 30000), func(c *kit.Case) { multiHistory(c, false) })
+	kit.Run(t, "C13", "multi-join", kit.N(500, 12000), func(c *kit.Case) { multiHistory(c, true) })
+	kit.Run(t, "C13", "multi-key", kit.N(500, 12000), func(c *kit.Case) { multiKeyHistory(c, false) })
+	kit.Run(t, "C13", "multi-key-reconnect", kit.N(24, 480), func(c *kit.Case) { multiKeyHistory(c, true) })
+	kit.Run(t, "C13", "poll-values", kit.N(320, 10000), pollValuesHistory)
 	removeTLSFiles()
 	kit.End()
 }
